@@ -3,6 +3,7 @@ package sample
 import (
 	"bytes"
 	"fmt"
+	"math"
 	"sort"
 	"strconv"
 	"strings"
@@ -178,13 +179,13 @@ func (d *distinctValue) AddAsString(value any, fieldIdx int) bool {
 	case int64:
 		d.buf = strconv.AppendInt(d.buf, v, 10)
 	case float64:
-		d.buf = strconv.AppendFloat(d.buf, v, 'f', -1, 64)
+		d.buf = appendFloat(d.buf, v)
 	// msgpack clients may encode integers unsigned and floats in 32 bits; the
 	// key must read the same as for the same number sent as int64 / float64
 	case uint64:
 		d.buf = strconv.AppendUint(d.buf, v, 10)
 	case float32:
-		d.buf = strconv.AppendFloat(d.buf, float64(v), 'f', -1, 64)
+		d.buf = appendFloat(d.buf, float64(v))
 	case bool:
 		d.buf = strconv.AppendBool(d.buf, v)
 	case nil:
@@ -204,4 +205,15 @@ func (d *distinctValue) AddAsString(value any, fieldIdx int) bool {
 	}
 
 	return false
+}
+
+// appendFloat writes a float in plain decimal notation. A whole number is
+// written with all its digits, so that it reads the same as the same number
+// held in an integer (the shortest representation that round-trips would
+// print 2^62 as 4611686018427388000).
+func appendFloat(buf []byte, f float64) []byte {
+	if f == math.Trunc(f) && math.Abs(f) < 1<<64 {
+		return strconv.AppendFloat(buf, f, 'f', 0, 64)
+	}
+	return strconv.AppendFloat(buf, f, 'f', -1, 64)
 }
